@@ -558,6 +558,16 @@ func R10() Rule {
 							if d, w := storeDerived(n, o, map[ssa.Value]bool{}); d {
 								bad = w
 							}
+							// a shallow copy (`c := *obj; &c`) of a store object still shares its maps and slices
+							if a, isAlloc := core.Resolve(o).(*ssa.Alloc); isAlloc {
+								for _, st := range core.StoresTo(a) {
+									if ld, isLd := core.Strip(st.Val).(*ssa.UnOp); isLd && ld.Op == token.MUL {
+										if d, w := storeDerived(n, ld.X, map[ssa.Value]bool{}); d {
+											bad = w + " (through a struct copy, which shares the maps and slices)"
+										}
+									}
+								}
+							}
 						}
 						if bad != "" {
 							c.Bad("R10", construct, x.Pos(), "a request body is decoded over the object returned by %s: that object shares maps and slices with the stored record (memory store), so the stored metadata changes in place — even when the request then fails, and concurrently with readers", bad)
